@@ -39,7 +39,8 @@ type monitor struct {
 	decidedBy map[int64]int
 	audited   map[int]int64 // node -> highest height whose commit was audited
 
-	signs map[int][]signRec
+	signs  map[int][]signRec
+	altEnc map[string]bool // part-set hashes of Byzantine alternative encodings of a block
 
 	// C05 automaton per node
 	c05 map[int]*c05state
@@ -74,7 +75,7 @@ type c05state struct {
 }
 
 func newMonitor(s *sim) *monitor {
-	return &monitor{s: s, decided: map[int64][]byte{}, decidedBy: map[int64]int{}, audited: map[int]int64{}, signs: map[int][]signRec{}, c05: map[int]*c05state{}, invalid: map[string]string{},
+	return &monitor{s: s, decided: map[int64][]byte{}, decidedBy: map[int64]int{}, audited: map[int]int64{}, signs: map[int][]signRec{}, altEnc: map[string]bool{}, c05: map[int]*c05state{}, invalid: map[string]string{},
 		recv: map[int]map[string]map[string]bool{}, vals: map[int64]*types.ValidatorSet{}, signSeen: map[int]int{},
 		stateBytes: map[int64][]byte{}, stateFrom: map[int64]int{}, stateSeen: map[int]int64{}, evCommitted: map[string]int64{}, auditAt: map[int]int64{}, assembled: map[string]bool{}, hdrs: map[int64]*hdrRec{}}
 }
@@ -187,10 +188,9 @@ func (m *monitor) judgeSignatures(n *simNode) {
 					lockR, lockB = o.r, o.block
 				}
 			}
-			// "a block" is identified by its hash: the same block under another part-set header
-			// (a +2/3 prevote quorum can name one the node does not hold parts for; enterPrecommit
-			// locks the block it holds and signs the quorum's id) is not "something else"
-			if lockR >= 0 && hashOf(rec.block) != hashOf(lockB) {
+			// votes are counted per block id (hash and part-set header): that is the identity of
+			// what was precommitted (a faulty proposer can ship one block as two part sets)
+			if lockR >= 0 && rec.block != lockB {
 				justified := false
 				for k := range m.recv[n.idx] {
 					var kh int64
@@ -200,7 +200,7 @@ func (m *monitor) judgeSignatures(n *simNode) {
 						continue
 					}
 					kb = k[len(fmt.Sprintf("%d/%d/", kh, kr)):]
-					if kh == rec.h && kr > lockR && hashOf(normKey(kb)) != hashOf(lockB) && m.polkaFor(n.idx, kh, kr, kb) {
+					if kh == rec.h && kr > lockR && normKey(kb) != lockB && m.polkaFor(n.idx, kh, kr, kb) {
 						justified = true
 					}
 				}
@@ -241,14 +241,6 @@ func (m *monitor) judgeSignatures(n *simNode) {
 const nilBlock = "/0/"
 
 func recKey(r signRec) string { return denorm(r.block) }
-
-// hashOf returns the block-hash part of a rendered block id ("" for nil).
-func hashOf(b string) string {
-	if i := strings.IndexByte(b, '/'); i >= 0 {
-		return b[:i]
-	}
-	return b
-}
 
 // sign records render a nil block id as "/0/"; the delivery tally uses "nil".
 func denorm(b string) string {
@@ -414,13 +406,6 @@ func (m *monitor) judgeRejections(n *simNode) {
 	for _, rj := range rjs {
 		e.Count("probe.proposal_block_rejected")
 		if !e.Checking("C06") {
-			continue
-		}
-		if n.bstore != nil && n.bstore.Base() > m.s.genDoc.InitialHeight && strings.Contains(rj.err, "don't have") {
-			// the simulated application prunes far below the evidence age (retain:1..3): a node
-			// that cannot verify evidence against history it was told to delete is the
-			// application's doing (ABCI: retain_height must respect the evidence age)
-			e.Count("probe.proposal_rejected_for_pruned_history")
 			continue
 		}
 		for _, p := range m.s.nodes {
